@@ -13,6 +13,19 @@ COMPONENTS = {
 }
 
 PROPS = {
+    "C05": {
+        "level": "exploration",
+        "rule": "run = seeded (shards in {1,2,3,5}, row type in {32-bit, 64-bit, 112-bit hybrid report, 32-bit aggregateable report}, 0..80 unique rows, "
+                "assignment plan incl. empty shards and fewer rows than shards, semi-honest/malicious, gateway knobs, policy); tampered runs re-execute the same seed with one "
+                "chunk of one helper's own shuffle traffic (MPC or shard-to-shard) rewritten at a site drawn from the honest run's channel inventory (stratified by step); "
+                "non-trivial iff >=1 multi-choice decision and >=2 rows (fault-free) or the tampered chunk was delivered; distinct by (shape, site, schedule digest)",
+        "scenarios": [
+            {"name": "c05_shuffle", "quick": 1200, "thorough": 60000, "offset": 1, "chunk": 25, "run_timeout": 120},
+            {"name": "c05_tamper", "quick": 1600, "thorough": 80000, "offset": 2, "chunk": 20, "run_timeout": 120, "crash_ok": True, "max_workers": 12},
+        ],
+        "expected_probes": ["empty_shards", "rows_fewer_than_shards", "malicious_runs", "honest_helper_returned_error"],
+        "components_real": ["protocol::ipa_prf::shuffle::{sharded, malicious}, report::hybrid Shuffleable impls, cross-shard reshard, PRSS, Gateway, in-memory MPC+shard transports (TestWorld<WithShards<S>>)"],
+    },
     "C13": {
         "level": "exploration",
         "rule": "run = seeded world (3 helpers, optionally x3 shards), 1-5 logical channels (helper and shard channels, shared and distinct steps, "
@@ -20,7 +33,7 @@ PROPS = {
                 "sender/receiver tasks through the real seq_join window; non-trivial iff >=1 multi-choice decision and >=2 records; "
                 "distinct by (world shape, schedule digest)",
         "scenarios": [
-            {"name": "c13_gw", "quick": 12000, "thorough": 600000, "offset": 1, "chunk": 400},
+            {"name": "c13_gw", "quick": 60000, "thorough": 600000, "offset": 1, "chunk": 400},
         ],
         "expected_probes": ["close_checks", "shard_streams_ended"],
         "components_real": ["helpers::Gateway, gateway::{send,receive,transport}, in-memory MPC + shard transports, StreamCollection, OrderingSender, UnorderedReceiver, seq_join"],
@@ -98,6 +111,12 @@ NOT_APPLICABLE = {
 }
 
 MANIFEST_TEXT = {
+    "C05": {
+        "text": "Seeded exploration of the real sharded shuffle (semi-honest and malicious) on 3 helpers x {1,2,3,5} shards under a controlled scheduler, with unique attributable rows and arbitrary shard assignment. Fault-free oracle: the three helpers hold equally many rows per shard, every output row is a consistent replicated sharing, and the union over shards reconstructs exactly the input multiset. Tampered runs (malicious mode): the same seed is re-executed with one chunk of one helper's own MPC or shard-to-shard shuffle traffic rewritten; violation iff both honest helpers return rows on every shard while their shares no longer determine the input multiset (accepted-but-harmless rewrites of padding/trailing bytes are counted, not judged). Sampling, not proof.",
+        "design_ref": "DESIGN.md section 4, C05",
+        "note": "MAC tags are 32 bits: a forged row passes with probability 2^-32 per run; an honest helper that aborts (e.g. allocation failure on a forged cardinality) counts as 'no output'",
+        "technique": "deterministic simulation: seeded schedule search + single-site Byzantine message rewriting over the real sharded shuffle",
+    },
     "C19": {
         "text": "Seeded exploration of the real resharding family on 3 helpers x {1,2,3,5} shards under a controlled scheduler: every helper/shard node is a task, the cross-shard exchange timing is decided by the seed, inputs have unique attributable records. Oracle computed from inputs and picks alone: each shard ends with exactly [from shard 0][from shard 1].. in origin input order, identical on the three helpers (multiset conservation for PRSS picks), no deadlock (unused channels closed); a failing or over-long input stream on a node makes that node return Err and no node of that helper returns Ok with a partial table. Sampling, not proof.",
         "design_ref": "DESIGN.md section 4, C19",
